@@ -490,8 +490,8 @@ def domain(targets, groups, roles, labels, eexcls, aexcls, perms=(('view',),)):
 def domains(quick):
     full = domain(('A', 'A2', 'B', 'AB'), GROUPS, ((), ('r1',)), ((), ('l1',)), ('', 'A', 'A2', 'B'), AEXCL_FULL)
     large = domain(('A', 'A2', 'B', 'AB'), GROUPS, ((), ('r1',)), ((), ('l1',)), ('', 'A', 'A2', 'B'), AEXCL_FULL[:5])
-    mid = domain(('A', 'A2', 'B'), ((), ('g1',)), ((), ('r1',)), ((), ('l1',)), ('', 'A', 'B'),
-                 ((), ('A.name',), ('A.b',), ('B.a_set',)))
+    mid = [r for r in domain(('A', 'A2', 'B'), ((), ('g1',)), ((), ('r1',)), ((), ('l1',)), ('', 'A', 'B'),
+                             ((), ('A.name',), ('A.b',), ('B.a_set',))) if not (r[3] and r[4])]
     small = domain(('A', 'B'), ((), ('g1',)), ((),), ((), ('l1',)), ('', 'A', 'B'), ((), ('A.b',), ('B.a_set',)))
     tiny = domain(('A', 'B'), ((), ('g1',)), ((),), ((),), ('', 'A'), ((), ('A.b',), ('B.a_set',)))
     return dict(full=full, large=large, mid=mid, small=small, tiny=tiny)
@@ -584,7 +584,7 @@ def run(ctx):
     D = domains(quick)
     items = []
     for perms in [(p,) for p in PERMS] + list(MULTI):
-        dom = 'mid' if (quick and len(perms) > 1) else 'full'
+        dom = ('mid' if len(perms) > 1 else 'large') if quick else 'full'
         for lo, hi in chunks(len(D[dom]), 64): items.append(('single', quick, perms, dom, lo, hi))
     pair_dom = 'mid' if quick else 'large'
     n = len(D[pair_dom])
@@ -599,7 +599,7 @@ def run(ctx):
     refusals(ctx)
     c = ctx.counters
     ctx.cov['domains'] = dict((k, len(v)) for k, v in D.items())
-    ctx.cov['bounds'] = ('single rules: full feature product (%d) x 4 permissions + 3 multi-permission forms (quick: on the mid product); pairs over the %s product (%d rules), '
+    ctx.cov['bounds'] = ('single rules: full feature product (%d; quick: large product) x 4 permissions + 3 multi-permission forms (quick: on the mid product); pairs over the %s product (%d rules), '
                          'triples over the %s product (%d rules), all orders; to_json (and L3, L5) on singles and on same-permission and mixed view/edit pairs of the %s product'
                          % (len(D['full']), pair_dom, n, tdom, len(D[tdom]), tdom))
     ctx.guard('rule sets evaluated', c.get('rule_sets', 0), 5000)
